@@ -58,6 +58,28 @@ func compressJobs(tier, prop string) []*Job {
 			}
 		}
 	}
+	// literal-run family: a literal run of exactly l bytes (concrete, repeat-free) followed by a
+	// match, for l around the length-code boundaries 15 and 15+255, with small destinations
+	litrun := func(kinds []int, dls func(l, n int) []int) {
+		ls := []int{13, 14, 15, 16, 17, 30, 269, 270, 271}
+		if thorough {
+			ls = append(ls, 1, 2, 7, 29, 31, 255, 256, 268, 272, 524, 525, 526)
+		}
+		for _, l := range ls {
+			for _, tail := range []int{0, 2} {
+				n := 2*l + 14 + tail
+				for _, kind := range kinds {
+					d := 0
+					if kind >= 3 {
+						d = 1
+					}
+					for _, dl := range dls(l, n) {
+						addP(n, kind, d, dl, -l, tail, "verif,noasm")
+					}
+				}
+			}
+		}
+	}
 	switch prop {
 	case "C01":
 		for n := 0; n <= nf; n++ {
@@ -82,6 +104,7 @@ func compressJobs(tier, prop string) []*Job {
 			}
 		}
 		periodic([]int{0, 1, 3, 4}, func(n int) []int { return []int{-1} })
+		litrun([]int{0, 3}, func(l, n int) []int { return []int{-1} })
 	case "C10":
 		for n := 0; n <= nf-1; n++ {
 			for _, dl := range []int{-1, -2, n, n - 3, n / 2} {
@@ -108,6 +131,7 @@ func compressJobs(tier, prop string) []*Job {
 			}
 		}
 		periodic([]int{0, 3}, func(n int) []int { return []int{-1, -2, n / 2, n / 4} })
+		litrun([]int{0, 3}, func(l, n int) []int { return []int{-1, -2, l + 8} })
 	case "C11":
 		nf, nh = nf-2, nh-1
 		for n := 0; n <= nf; n++ {
@@ -136,6 +160,9 @@ func compressJobs(tier, prop string) []*Job {
 			add(n, 5, 1, bound, "verif,noasm")
 		}
 		periodic([]int{0, 3}, func(n int) []int { return []int{-1, -2, n / 2, n / 4, 8, 3} })
+		litrun([]int{0, 3}, func(l, n int) []int {
+			return dedup([]int{0, 1, 2, 3, 4, 5, l, l + 1, l + 2, l + 3, l + 4, l + 5, l + 6, l + 8, n / 2, -3, -2, -1})
+		})
 	}
 	return jobs
 }
@@ -182,6 +209,32 @@ func detJobs(tier string) []*Job {
 			}
 		}
 	}
+	// real histories: a first (usually failing) call on the same object, then the call under test
+	type shape struct{ n, period, tail int }
+	firsts := []struct {
+		s   shape
+		dl0 int
+	}{{shape{40, 1, 0}, 2}, {shape{40, 2, 3}, 5}, {shape{31, 3, 0}, 8}, {shape{40, 1, 0}, 60}, {shape{24, 2, 5}, 0}}
+	seconds := []shape{{40, 2, 3}, {31, 1, 5}, {64, 3, 1}, {40, 1, 0}}
+	for _, kind := range []int{0, 3} {
+		for fi, f := range firsts {
+			for si, sc := range seconds {
+				for _, dl := range []int{-1, sc.n / 2} {
+					depth := 0
+					if kind == 3 {
+						depth = (fi + si) % 2
+					}
+					if tier != "thorough" && (fi+si+dl)%2 != 0 && kind == 0 {
+						continue
+					}
+					j := mkJob(fmt.Sprintf("hist-k%d-d%d-f%d-s%d-dl%d", kind, depth, fi, si, dl), "H_compress_hist", "internal/lz4block", "verif,noasm",
+						P("kind", kind, "depth", depth, "n0", f.s.n, "period0", f.s.period, "tail0", f.s.tail, "dl0", f.dl0, "n", sc.n, "period", sc.period, "tail", sc.tail, "dl", dl))
+					j.Unwind = 6000
+					jobs = append(jobs, j)
+				}
+			}
+		}
+	}
 	for n := 0; n <= nh; n++ {
 		for _, d := range []int{0, 1, 2, 512} {
 			if tier != "thorough" && n > 14 && d == 1 {
@@ -217,6 +270,8 @@ func compressBounds(prop string) func(string) []string {
 		return []string{
 			fmt.Sprintf("every source content (all bytes symbolic) at each length 0..%d for the fast compressor and 0..%d for the HC compressor (depths 0, 1, 2, 3, 512, 65537)", nf, nh),
 			"periodic family: sources of 24..300 (thorough ..560) bytes = a symbolic first period (1,2,3 bytes; thorough 4) repeated, plus 0..13 free symbolic bytes at the end (0..5 for reused-state and HC runs) (long matches, multi-byte length codes, matches running into the last 5/12 bytes)",
+			"literal-run family: a literal run of exactly l concrete repeat-free bytes (l around 15 and 15+255: 13..17, 30, 269..271) followed by a match and 0/2 symbolic bytes, with destination lengths 0..5, l..l+8, n/2, bound-2..bound (C11)",
+			"history family (C14): the same object first compresses another (periodic) source into a destination that is too short (or large enough), then the source under test; compared with a fresh object",
 			"compressor states: fresh object; reused object with arbitrary prior table contents (SMT arrays); package-level function with such an object sitting in the pool",
 			"destination: prior contents arbitrary, 16 bytes of spare capacity holding arbitrary canary bytes; lengths as listed per job (bound, bound-1, around len(src), small)",
 			"both block decoders on the way back (portable SSA; amd64 assembly via asmsym) for C01",
